@@ -76,7 +76,7 @@ type c3Start struct {
 }
 
 type c3Op struct {
-	kind  byte // 'X' EXCHANGE_LIFETIME elapses (the cached replies expire), 'S' start, 'G' burst of starts, 'B' burst released through the token-table barrier, 'A' empty ack, 'R' response, 'F' foreign-token response, 'C' cancel, 'K' one block of a block-wise (Block2) response, 'W' responses arriving back to back
+	kind  byte // 'T' time passes beyond the validity of what the block-wise layer has stored (no sweep; only while no call is outstanding), 'X' EXCHANGE_LIFETIME elapses (the cached replies expire), 'S' start, 'G' burst of starts, 'B' burst released through the token-table barrier, 'A' empty ack, 'R' response, 'F' foreign-token response, 'C' cancel, 'K' one block of a block-wise (Block2) response, 'W' responses arriving back to back
 	st    []c3Start
 	cid   int
 	rid   int
@@ -87,6 +87,7 @@ type c3Op struct {
 	num   int    // 'K': block number
 	total int    // 'K': number of blocks of the response (block num is the last one iff num == total-1)
 	sub   []c3Op // 'W': responses ('R') that reach the connection back to back (one write on a stream)
+	empty bool   // 'R' written 'E': the response has no payload (2.04 Changed; its tag travels in the ETag option)
 }
 
 type c3Script struct {
@@ -129,6 +130,9 @@ func (o c3Op) String() string {
 	case 'C':
 		return fmt.Sprintf("C%d", o.cid)
 	case 'R':
+		if o.empty {
+			return fmt.Sprintf("E%d:%d:%c:%d", o.rid, o.forc, o.rkind, o.slot)
+		}
 		return fmt.Sprintf("R%d:%d:%c:%d", o.rid, o.forc, o.rkind, o.slot)
 	case 'F':
 		return fmt.Sprintf("F%d:%s:%c:%d", o.rid, c3Hex(o.tok), o.rkind, o.slot)
@@ -136,6 +140,8 @@ func (o c3Op) String() string {
 		return fmt.Sprintf("K%d:%d:%c:%d:%d/%d", o.rid, o.forc, o.rkind, o.slot, o.num, o.total)
 	case 'X':
 		return "X"
+	case 'T':
+		return "T"
 	case 'W':
 		parts := make([]string, len(o.sub))
 		for i, x := range o.sub {
@@ -181,13 +187,15 @@ func parseC3Script(txt string) (c3Script, error) {
 			}
 		case 'A', 'C':
 			o.cid = atoi(body)
-		case 'X':
-		case 'R':
+		case 'X', 'T':
+		case 'R', 'E':
 			q := strings.Split(body, ":")
 			if len(q) != 4 {
 				return sc, fmt.Errorf("bad response %q", w)
 			}
 			o.rid, o.forc, o.rkind, o.slot = atoi(q[0]), atoi(q[1]), q[2][0], atoi(q[3])
+			o.empty = o.kind == 'E'
+			o.kind = 'R'
 		case 'K':
 			q := strings.Split(body, ":")
 			if len(q) != 5 || !strings.Contains(q[4], "/") {
@@ -281,7 +289,10 @@ type c3Run struct {
 	framed     *atomic.Int64  // tcp: bytes of them the scripted peer has cut into frames
 	piled      int            // barrier bursts whose callers were all seen queued on the token table's lock (or back)
 	unpiled    int            // ... released after the time limit instead
+	skipped    int            // starts not run: the token has valid reassembly state of an abandoned transfer (see doStart)
 	sess       *memSession
+	ubw        *blockwise.BlockWise[*client.Conn]    // the block-wise layer of the connection (event T)
+	tbw        *blockwise.BlockWise[*tcpclient.Conn] // ...
 	ucc        *client.Conn
 	tcc        *tcpclient.Conn
 	peer       net.Conn
@@ -363,9 +374,10 @@ func (r *c3Run) setup() {
 	var opts []client.Option
 	if r.bw {
 		opts = append(opts, client.WithBlockWise(func(cc *client.Conn) *blockwise.BlockWise[*client.Conn] {
-			return blockwise.New(cc, time.Hour, cfg.Errors, func(token message.Token) (*pool.Message, bool) {
+			r.ubw = blockwise.New(cc, time.Hour, cfg.Errors, func(token message.Token) (*pool.Message, bool) {
 				return cc.GetObservationRequest(token)
 			})
+			return r.ubw
 		}))
 	}
 	r.ucc = client.NewConnWithOpts(r.sess, &cfg, opts...)
@@ -417,9 +429,10 @@ func (r *c3Run) setupTCP() {
 	var opts []tcpclient.Option
 	if r.bw {
 		opts = append(opts, tcpclient.WithBlockWise(func(cc *tcpclient.Conn) *blockwise.BlockWise[*tcpclient.Conn] {
-			return blockwise.New(cc, time.Hour, cfg.Errors, func(token message.Token) (*pool.Message, bool) {
+			r.tbw = blockwise.New(cc, time.Hour, cfg.Errors, func(token message.Token) (*pool.Message, bool) {
 				return cc.GetObservationRequest(token)
 			})
+			return r.tbw
 		}))
 	}
 	r.tcc = tcpclient.NewConnWithOpts(coapNet.NewConn(&c3CountConn{Conn: c1, n: r.written}), &cfg, opts...)
@@ -787,6 +800,13 @@ func c3ReadResp(resp *pool.Message) (tok []byte, forc, rid int) {
 		body, _ = resp.ReadBody()
 	}
 	forc, rid = 9999, 9999
+	if et, err := resp.GetOptionBytes(message.ETag); err == nil {
+		// a response the peer produced WITHOUT payload: its tag is the ETag, and it has no body
+		if len(et) == 4 && len(body) == 0 {
+			return tok, int(et[0])<<8 | int(et[1]), int(et[2])<<8 | int(et[3])
+		}
+		return
+	}
 	if len(body) == 4 {
 		return tok, int(body[0])<<8 | int(body[1]), int(body[2])<<8 | int(body[3])
 	}
@@ -865,6 +885,27 @@ func (r *c3Run) waitFor(into *[]c3Ret, pred func() bool) bool {
 
 func (r *c3Run) encode(typ message.Type, mid int, tok []byte, forc, rid int) []byte {
 	return r.encodeBlock(typ, mid, tok, []byte{byte(forc >> 8), byte(forc), byte(rid >> 8), byte(rid)}, -1, false)
+}
+
+// encodeEmpty: a 2.04 response without payload; the tag (request it was produced for, response number) is its ETag
+func (r *c3Run) encodeEmpty(typ message.Type, mid int, tok []byte, forc, rid int) []byte {
+	m := message.Message{Code: codes.Changed, Token: tok}
+	m.Options = message.Options{{ID: message.ETag, Value: []byte{byte(forc >> 8), byte(forc), byte(rid >> 8), byte(rid)}}}
+	buf := make([]byte, 256)
+	if r.tcp {
+		n, err := tcpcoder.DefaultCoder.Encode(m, buf)
+		if err != nil {
+			panic(err)
+		}
+		return buf[:n]
+	}
+	m.Type = typ
+	m.MessageID = int32(mid)
+	n, err := coder.DefaultCoder.Encode(m, buf)
+	if err != nil {
+		panic(err)
+	}
+	return buf[:n]
 }
 
 // encodeBlock: a 2.05 response; num >= 0: with the option Block2 = (num, more, SZX 16)
@@ -1027,6 +1068,29 @@ func (r *c3Run) recheckHeld(rets []c3Ret) {
 }
 
 func (r *c3Run) doStart(o c3Op) {
+	if r.bw {
+		// Not generated (and skipped when a shrunk or hand-written script asks for it): a Do that re-uses a token
+		// while VALID reassembly state of an abandoned transfer is still stored under it (the transfer was given up
+		// without a deadline and its validity -- the transfer timeout -- has not passed: no event T in between). The
+		// library continues the old reassembly then (observation O4 of notes/C04.md, recorded there as the
+		// cross-request form of "versions of a resource without ETag cannot be told apart"; see notes/C03.md).
+		keep := o.st[:0:0]
+		for _, s := range o.st {
+			if s.tok != nil {
+				h := message.Token(s.tok).Hash()
+				_, stale := r.have[h]
+				if _, held := r.sreg[h]; stale && !held {
+					r.skipped++
+					continue
+				}
+			}
+			keep = append(keep, s)
+		}
+		if len(keep) == 0 {
+			return
+		}
+		o.st = keep
+	}
 	gate := make(chan struct{})
 	var rets []c3Ret
 	var release func()
@@ -1215,6 +1279,8 @@ func (r *c3Run) prepResp(o c3Op) (data []byte, msg string, ok bool) {
 			}
 		}
 		data = r.encodeBlock(typ, mid, tok, c3BlockPayload(o.forc, o.rid, o.num, o.total), o.num, more)
+	} else if o.empty {
+		data = r.encodeEmpty(typ, mid, tok, o.forc, o.rid)
 	} else {
 		data = r.encode(typ, mid, tok, o.forc, o.rid)
 	}
@@ -1374,6 +1440,32 @@ func (r *c3Run) run() string {
 				r.waitExpected(&rets)
 				r.item("DLifetime", rets, r.takeFell())
 			}
+		case 'T':
+			// time passes beyond the validity of everything the block-wise layer has stored; the periodic sweep does
+			// not run. Only while no call is outstanding (the entries of the sending cache would expire as well):
+			// what is left is the reassembly state of transfers that were given up -- the state a request with a
+			// context deadline leaves behind when the deadline passes between two sweeps (validUntil = the deadline)
+			if !r.bwcase || !r.bw {
+				continue
+			}
+			idle := true
+			for _, c := range r.calls {
+				if !c.returned {
+					idle = false
+				}
+			}
+			if !idle {
+				continue
+			}
+			if r.tcp {
+				r.tbw.VerifShiftDeadlines(2 * time.Hour)
+			} else {
+				r.ubw.VerifShiftDeadlines(2 * time.Hour)
+			}
+			r.have = map[uint64]int{}
+			var rets []c3Ret
+			r.waitExpected(&rets)
+			r.item("BElapse", rets, r.takeFell())
 		case 'C':
 			c := r.calls[o.cid]
 			if c == nil || !c.onWire {
@@ -1827,7 +1919,7 @@ func runC03(a runArgs) error {
 	e := NewEmitter("C03", "Token.DedupRun")
 	e.Preamble = "From GoCoap Require Import Token.Model Token.Spec Token.BwSpec Token.DedupModel Token.DedupSpec."
 	e.ShardSize = 120
-	e.Rule = "event scripts on a real udp/client.Conn (in-memory session) and tcp/client.Conn (net.Pipe), block-wise on/off: 1-8 calls (Do with caller-chosen tokens, Get/Post with library tokens; CON/NON) issued one by one or as a burst of goroutines released together, answered in a random order piggybacked / after an empty ACK / before the ACK / as separate CON or NON, with retransmitted and re-sent duplicates, foreign tokens, cancellations, equal tokens (second call while the first is outstanding, bursts with one token, re-use after completion), the CRC-64-colliding token pair, 14 pairs of similar but distinct tokens (differing by trailing / leading zero bytes, length, one byte, byte order; both outstanding, foreign response, late response of a cancelled call, mixed burst), bursts of 2-4 calls with one token released together at the token table (a goroutine holds the table's lock until every caller is queued inside LoadOrStore), and sequential separate-response exchanges on a pooled connection whose empty-ACK write takes 300 us while the caller releases its response at once. Block-wise layer (cases replayed on Token/BwModel.v): a Do whose response arrives in 2-4 Block2 blocks with a second Do with its token before / between the blocks, bystanders, two interleaved transfers, duplicated and stale blocks, cancellation mid-transfer, re-use of the token (ub, tb, ubh1, tbh1), and on connections with the message pool on a block-wise download followed by 3-5 calls with distinct tokens answered in another order or all back to back while the callers keep their responses (tbh1, tbh, tbp, ubh1, ubp); these cases also record the block numbers asked for, the 4.08 written and the messages the receive path released. Message-ID layer (every datagram case is replayed on Token/DedupModel.v from the type and message ID of each received message; per message the response-cache hit and the acknowledgements written are recorded): a caller re-uses its token for the next request after the previous one completed, the peer answers with separate responses and sends an earlier response again with the same message ID while the later request is outstanding (acknowledged or not, CON/NON requests, the copy as CON or NON, two copies, three rounds, an earlier request given up, a copy while nobody waits, bystanders, a message ID re-used by the peer for another response within EXCHANGE_LIFETIME and after it has elapsed (event X), two NON copies). Distinct = distinct script; non-trivial = at least two calls or one duplicate / foreign / cancel / equal-token / block / back-to-back / lifetime event."
+	e.Rule = "event scripts on a real udp/client.Conn (in-memory session) and tcp/client.Conn (net.Pipe), block-wise on/off: 1-8 calls (Do with caller-chosen tokens, Get/Post with library tokens; CON/NON) issued one by one or as a burst of goroutines released together, answered in a random order piggybacked / after an empty ACK / before the ACK / as separate CON or NON, with retransmitted and re-sent duplicates, foreign tokens, cancellations, equal tokens (second call while the first is outstanding, bursts with one token, re-use after completion), the CRC-64-colliding token pair, 14 pairs of similar but distinct tokens (differing by trailing / leading zero bytes, length, one byte, byte order; both outstanding, foreign response, late response of a cancelled call, mixed burst), bursts of 2-4 calls with one token released together at the token table (a goroutine holds the table's lock until every caller is queued inside LoadOrStore), and sequential separate-response exchanges on a pooled connection whose empty-ACK write takes 300 us while the caller releases its response at once. Block-wise layer (cases replayed on Token/BwModel.v): a Do whose response arrives in 2-4 Block2 blocks with a second Do with its token before / between the blocks, bystanders, two interleaved transfers, duplicated and stale blocks, cancellation mid-transfer, re-use of the token (ub, tb, ubh1, tbh1), and on connections with the message pool on a block-wise download followed by 3-5 calls with distinct tokens answered in another order or all back to back while the callers keep their responses (tbh1, tbh, tbp, ubh1, ubp); these cases also record the block numbers asked for, the 4.08 written and the messages the receive path released. Message-ID layer (every datagram case is replayed on Token/DedupModel.v from the type and message ID of each received message; per message the response-cache hit and the acknowledgements written are recorded): a caller re-uses its token for the next request after the previous one completed, the peer answers with separate responses and sends an earlier response again with the same message ID while the later request is outstanding (acknowledged or not, CON/NON requests, the copy as CON or NON, two copies, three rounds, an earlier request given up, a copy while nobody waits, bystanders, a message ID re-used by the peer for another response within EXCHANGE_LIFETIME and after it has elapsed (event X), two NON copies). Round 4 (state that outlives a request): a Do whose block-wise response stalls gives up after 1-2 blocks, time passes beyond the validity of the reassembly state it leaves behind (event T: the cached elements' deadlines are moved into the past, no sweep), a later Do re-uses the token and is answered block-wise (also: twice in a row, a bystander transfer, a single response first, late blocks of the abandoned transfer) on ub and tb, replayed on Token/BwModel.v and Token/ReasmModel.v; sequential exchanges on pooled connections (tp1, tp, up; also t, u) where the callers release their responses at once and some responses have no payload (event E: 2.04 with the tag in the ETag option); and ONE real pool.Message through 3-8 lives (UnmarshalWithDecoder of frames / datagrams from the real coders with and without payload, Reset, SetBody; Token(), Code(), ReadBody() after every decode; Token/RecycleModel.v). Distinct = distinct script; non-trivial = at least two calls or one duplicate / foreign / cancel / equal-token / block / back-to-back / lifetime event."
 	emit := func(sc c3Script, fam string) {
 		if c3Hangs >= 3 && a.only == "" {
 			return // enough hung cases to report; do not spend the watchdog time on every further case
@@ -1839,7 +1931,7 @@ func runC03(a runArgs) error {
 			if o.kind == 'S' || o.kind == 'G' || o.kind == 'B' {
 				ncalls += len(o.st)
 			}
-			if o.kind == 'F' || o.kind == 'C' || o.kind == 'K' || o.kind == 'W' || o.kind == 'X' {
+			if o.kind == 'F' || o.kind == 'C' || o.kind == 'K' || o.kind == 'W' || o.kind == 'X' || o.kind == 'T' {
 				nt = true
 			}
 		}
@@ -1853,7 +1945,18 @@ func runC03(a runArgs) error {
 		for i := 0; i < run.unpiled; i++ {
 			hist = append(hist, "barrier-released-after-time-limit")
 		}
+		for i := 0; i < run.skipped; i++ {
+			hist = append(hist, "start-skipped-valid-reassembly-state-of-abandoned-transfer")
+		}
 		e.Add(txt, sc.String(), nt, hist...)
+	}
+	if strings.HasPrefix(a.only, "rc|") {
+		ops, err := parseC3Rc(a.only)
+		if err != nil {
+			return err
+		}
+		e.Add(runC3Rc(ops), c3RcDesc(ops), true, "fam-replay")
+		return e.Flush(a.out)
 	}
 	if a.only != "" {
 		sc, err := parseC3Script(a.only)
@@ -1869,7 +1972,27 @@ func runC03(a runArgs) error {
 	if a.tier == "thorough" {
 		nPerm, nEq, nBar, nSep = 600, 100, 40, 200
 	}
-	// The message-ID layer family comes first (a failure found there is the one reported), on a stream of its own:
+	// Round 4 families first, on a stream of their own (c03x.go): state that outlives a request.
+	rng5 := NewRng(a.seed ^ 0x57A1E57A1E)
+	nExp, nEmp, nRc := 2, 3, 40
+	if a.tier == "thorough" {
+		nExp, nEmp, nRc = 30, 30, 1500
+	}
+	for i := 0; i < nRc; i++ {
+		ops := c3GenRecycle(rng5.Fork(), 3+i%6)
+		e.Add(runC3Rc(ops), c3RcDesc(ops), true, "fam-recycle", fmt.Sprintf("lives%d", 3+i%6))
+	}
+	for _, tr := range []string{"ub", "tb"} {
+		for v := 0; v < 6*nExp; v++ {
+			emit(c3GenExpire(rng5.Fork(), tr, v), "expire")
+		}
+	}
+	for _, tr := range []string{"tp1", "tp", "t", "up", "u"} {
+		for i := 0; i < nEmp; i++ {
+			emit(c3GenEmpty(rng5.Fork(), tr, 8+4*(i%3)), "empty")
+		}
+	}
+	// The message-ID layer family comes next (a failure found there is the one reported), on a stream of its own:
 	// re-used tokens and retransmitted responses, udp and udp + block-wise (c03dd.go).
 	rng4 := NewRng(a.seed ^ 0xDED0DED0)
 	nReuse := 2
